@@ -31,7 +31,7 @@ ASSUMPTIONS = [
     "an earlier include field means is not stated by the property",
     "the format layer (C04) is trusted to write the files the harness prepares",
 ]
-REQUIRED = ["format-options", "cwd-decoy", "mode:merge", "mode:load", "mode:missing", "scope:root", "scope:nested", "scope:deep", "chain", "chain:named-by-included-file", "link:same", "link:nested", "path:relative",
+REQUIRED = ["format-options", "cwd-decoy", "mode:merge", "mode:load", "mode:missing", "scope:root", "scope:nested", "scope:deep", "chain", "chain:named-by-included-file", "link:same", "link:nested", "schema-extended-after-a-load", "path:relative",
             "path:absolute", "conflict:map-vs-scalar"] + ["fmt:" + f for f in trees.FORMATS]
 LEVEL_TEXT = (
     "Generated tree pairs/chains and real include files with a 10-line reference merge and a metamorphic "
@@ -75,6 +75,7 @@ def strategy(tier):
         "startdir": st.sampled_from(["inc", "inc/more", None]),
         "prestate": _tree(1),
         "fopts": st.sampled_from([None, None, "app"]),  # yaml root_key / xml root_tag passed to loads() and used for every file
+        "late": st.sampled_from([None, None, "chain", "item"]),
         "links": st.lists(st.fixed_dictionaries({"from": st.integers(0, 3), "to": st.integers(0, 3), "where": st.sampled_from(["same", "nested"]),
                                                  "slot": st.integers(0, 1)}), max_size=2),
     })
@@ -127,16 +128,36 @@ def _conflict(base, child, depth=1):
     return best, conf
 
 
-def _schema(cc, startdir):
+def _schema(cc, startdir, late=None, fmt="json"):
+    """``late``: the schema is used for a load first and only then gets (some of) its include fields - declared by
+    attribute assignment, through a chain of attributes, or through a dotted item path."""
     schema = cc.Schema(dynamic=True)
     schema.include = cc.IncludeField(startdir=startdir)
-    schema.include2 = cc.IncludeField(startdir=startdir)
+    if not late:
+        schema.include2 = cc.IncludeField(startdir=startdir)
     schema.sub = cc.Schema(dynamic=True)
-    schema.sub.include = cc.IncludeField(startdir=startdir)
-    schema.sub.include2 = cc.IncludeField(startdir=startdir)
-    schema.sub.deep = cc.Schema(dynamic=True)
-    schema.sub.deep.include = cc.IncludeField(startdir=startdir)
-    schema.sub.deep.include2 = cc.IncludeField(startdir=startdir)
+    if not late:
+        schema.sub.include = cc.IncludeField(startdir=startdir)
+        schema.sub.include2 = cc.IncludeField(startdir=startdir)
+        schema.sub.deep = cc.Schema(dynamic=True)
+        schema.sub.deep.include = cc.IncludeField(startdir=startdir)
+        schema.sub.deep.include2 = cc.IncludeField(startdir=startdir)
+        return schema
+    first = schema()
+    first.loads(cc.ConfigFormat.get(fmt).dumps(first, {"a": 1, "sub": {"b": 2}}), fmt)  # the schema has been loaded through once
+    schema.include2 = cc.IncludeField(startdir=startdir)
+    if late == "chain":
+        schema.sub.include = cc.IncludeField(startdir=startdir)
+        schema.sub.include2 = cc.IncludeField(startdir=startdir)
+        schema.sub.deep = cc.Schema(dynamic=True)
+        schema.sub.deep.include = cc.IncludeField(startdir=startdir)
+        schema.sub.deep.include2 = cc.IncludeField(startdir=startdir)
+    else:
+        schema["sub.include"] = cc.IncludeField(startdir=startdir)
+        schema["sub.include2"] = cc.IncludeField(startdir=startdir)
+        schema["sub.deep"] = cc.Schema(dynamic=True)
+        schema["sub.deep.include"] = cc.IncludeField(startdir=startdir)
+        schema["sub.deep.include2"] = cc.IncludeField(startdir=startdir)
     return schema
 
 
@@ -204,7 +225,10 @@ def run_case(case, R):
         os.makedirs(os.path.join(d, "inc", "more", "subdir"), exist_ok=True)
         os.makedirs(startdir, exist_ok=True)
         use_startdir = startdir if (mode != "load" or case.get("startdir")) else None
-        schema = _schema(cc, use_startdir)
+        late = case.get("late") if mode == "load" else None
+        if late:
+            R.label("schema-extended-after-a-load")
+        schema = _schema(cc, use_startdir, late, fmt)
         fopts = {}
         if mode == "load" and case.get("fopts") and fmt in ("yaml", "xml"):
             fopts = {"root_key": case["fopts"]} if fmt == "yaml" else {"root_tag": case["fopts"]}
